@@ -263,7 +263,7 @@ def run(prop, tier, replay=None):
 # ----------------------------------------------------------------------------- C16
 def c16_bases(tier):
     """representative lines: class-covering seeded sample over the C01-C05 corpora"""
-    n = {"quick": 12, "thorough": 60}[tier]
+    n = {"quick": 12, "thorough": 150}[tier]
     out = []
     for cname in ("C01", "C02b", "C02d", "C02e", "C02g", "C03", "C04a", "C04c", "C05", "C05m"):
         recs = [r for r in A.load_corpus(A.corpus(cname)) if r["status"] == "Supported"]
@@ -307,7 +307,7 @@ def run_c16(prop, tier, replay=None):
     if tier == "thorough":
         st3 = [json.loads(l) for l in open(A.corpus("STYLES3"))]
         random.Random(A.SEED).shuffle(st3)
-        styles += st3[:120]
+        styles += st3[:300]
     decor = [A.toktext(json.loads(l)["toks"]) for l in open(A.corpus("DECOR"))]
     replay_is_filter = False
     if replay:
